@@ -10,7 +10,7 @@ Trace == ndJsonDeserialize(IOEnv.VERIF_TRACE)
 VARIABLES l, tid, sv, viol, div, nload, nbyte, nseg, done
 vars == <<l, tid, sv, viol, div, nload, nbyte, nseg, done>>
 Ev == Trace[l]
-V(p, k) == IF Cardinality(viol) >= 60 THEN viol ELSE viol \cup {<<p, tid, l, k>>}
+V(p, k) == IF Cardinality({x \in viol : x[1] = p /\ x[4] = k}) >= 25 THEN viol ELSE viol \cup {<<p, tid, l, k>>}
 
 Ent(x) == [k |-> x[1], v |-> x[2], cost |-> x[3], dl |-> x[4], fr |-> 0]
 EntF(x) == [k |-> x[1], v |-> x[2], cost |-> x[3], dl |-> x[4], fr |-> x[5]]
@@ -59,7 +59,10 @@ Step ==
                       THEN v3 \cup {<<"C11", tid, l, IF uniform \/ ~same THEN "loaded_cost_above_new_capacity" ELSE "loaded_mixed_costs_above_new_capacity">>} ELSE v3
                 v5 == IF clean /\ Ev.err = "none" /\ (Ev.ws # total \/ Ev.resident # Len(actual.win) + Len(actual.pt) + Len(actual.pb) \/ Ev.lenW # SumCost(actual.win) \/ Ev.lenT # SumCost(actual.pt) \/ Ev.lenB # SumCost(actual.pb))
                       THEN v4 \cup {<<"C11", tid, l, "loaded_cache_inconsistent">>} ELSE v4
-                v6 == IF clean /\ Ev.err = "none" /\ (Ev.origin_ok # 1 \/ ~FreqOK(Ev)) THEN v5 \cup {<<"C11", tid, l, "clock_origin_or_frequency_not_restored">>} ELSE v5
+                v5b == IF clean /\ Ev.err = "none" /\ (Ev.resident # Len(actual.win) + Len(actual.pt) + Len(actual.pb) \/ Ev.ws # total)
+                       THEN v5 \cup {<<"C16", tid, l, "len_or_estimated_size_of_loaded_cache_differs_from_its_tracked_entries">>,
+                                     <<"C02", tid, l, "loaded_cache_holds_entries_the_policy_does_not_track_or_counts_differently">>} ELSE v5
+                v6 == IF clean /\ Ev.err = "none" /\ (Ev.origin_ok # 1 \/ ~FreqOK(Ev)) THEN v5b \cup {<<"C11", tid, l, "clock_origin_or_frequency_not_restored">>} ELSE v5b
                 \* C12
                 v7 == IF Ev.fault = "truncate" /\ Ev.err = "none" THEN v6 \cup {<<"C12", tid, l, "truncated_stream_loaded_without_error">>} ELSE v6
                 v8 == IF Ev.err = "panic" THEN v7 \cup {<<"C12", tid, l, "load_panicked">>} ELSE v7
@@ -96,6 +99,15 @@ Step ==
             \* reclaimed everything that was due 2.1 s before the second one
             /\ viol' = IF Ev.overdue > 0 THEN V("C04", "restored_entry_not_reclaimed_two_ticks_after_its_deadline") ELSE viol
             /\ UNCHANGED <<tid, sv, div, nload, nbyte, nseg>>
+       [] Ev.ev = "later" ->
+            \* C03 for restored entries: read some time after the load, nothing is served past the deadline it was saved with
+            LET c == Cache(sv.state)
+                now2 == Ev.wall - 1000
+                alive2 == ToSet(Alive(All(c), now2))
+                srv == {<<Ev.served[i][1], Ev.served[i][2]>> : i \in DOMAIN Ev.served}
+                dead2 == {x \in srv : (\E y \in ToSet(All(c)) : y.k = x[1] /\ y.v = x[2]) /\ ~(\E y \in alive2 : y.k = x[1] /\ y.v = x[2])}
+            IN /\ viol' = IF dead2 # {} THEN V("C03", "restored_entry_served_after_its_saved_deadline") ELSE viol
+               /\ UNCHANGED <<tid, sv, div, nload, nbyte, nseg>>
        [] OTHER -> UNCHANGED <<tid, sv, viol, div, nload, nbyte, nseg>>
 
 Finish ==
